@@ -570,6 +570,76 @@ def unfold_any_over_local_function(tree):
     return n_done
 
 
+def unroll_reflective_loops(tree):
+    """`for name in ('_a', '_b'): setattr(o, name, getattr(self, name))`  ->  `o._a = self._a; o._b = self._b`: a loop over a literal
+    tuple / list of attribute names whose variable is only used as the name argument of getattr / setattr is unrolled into plain
+    attribute accesses (at most 16 names)."""
+    import copy as _copy
+    import keyword
+    done = 0
+    for node in ast.walk(tree):
+        for field in ("body", "orelse", "finalbody"):
+            block = getattr(node, field, None)
+            if not (isinstance(block, list) and block and isinstance(block[0], ast.stmt)):
+                continue
+            k = 0
+            while k < len(block):
+                st = block[k]
+                k += 1
+                if not (isinstance(st, ast.For) and isinstance(st.target, ast.Name) and not st.orelse and isinstance(st.iter, (ast.Tuple, ast.List))
+                        and 0 < len(st.iter.elts) <= 16 and all(isinstance(e, ast.Constant) and isinstance(e.value, str) and e.value.isidentifier()
+                                                                 and not keyword.iskeyword(e.value) for e in st.iter.elts)):
+                    continue
+                var = st.target.id
+                uses = [x for b_ in st.body for x in ast.walk(b_) if isinstance(x, ast.Name) and x.id == var]
+                ok_uses = set()
+                for b_ in st.body:
+                    for x in ast.walk(b_):
+                        if isinstance(x, ast.Call) and isinstance(x.func, ast.Name) and x.func.id in ("getattr", "setattr") and len(x.args) >= 2 \
+                                and isinstance(x.args[1], ast.Name) and x.args[1].id == var and not x.keywords:
+                            ok_uses.add(id(x.args[1]))
+                if not uses or any(id(u) not in ok_uses for u in uses) or any(isinstance(u.ctx, ast.Store) for u in uses):
+                    continue
+                if any(isinstance(x, (ast.Break, ast.Continue)) for b_ in st.body for x in ast.walk(b_)):
+                    continue
+                # setattr must be a whole expression statement
+                bad = False
+                for b_ in st.body:
+                    for x in ast.walk(b_):
+                        if isinstance(x, ast.Call) and isinstance(x.func, ast.Name) and x.func.id == "setattr" and len(x.args) >= 2 \
+                                and isinstance(x.args[1], ast.Name) and x.args[1].id == var:
+                            if not (isinstance(b_, ast.Expr) and b_.value is x and len(x.args) == 3):
+                                bad = True
+                        if isinstance(x, ast.Call) and isinstance(x.func, ast.Name) and x.func.id == "getattr" and len(x.args) != 2 \
+                                and len(x.args) >= 2 and isinstance(x.args[1], ast.Name) and x.args[1].id == var:
+                            bad = True
+                if bad:
+                    continue
+                new = []
+                for e in st.iter.elts:
+                    name = e.value
+
+                    class _G(ast.NodeTransformer):
+                        def visit_Call(self, n):
+                            self.generic_visit(n)
+                            if isinstance(n.func, ast.Name) and n.func.id == "getattr" and len(n.args) == 2 and isinstance(n.args[1], ast.Name) and n.args[1].id == var:
+                                return ast.copy_location(ast.Attribute(value=n.args[0], attr=name, ctx=ast.Load()), n)
+                            return n
+                    for b_ in st.body:
+                        c_ = _G().visit(_copy.deepcopy(b_))
+                        if isinstance(c_, ast.Expr) and isinstance(c_.value, ast.Call) and isinstance(c_.value.func, ast.Name) and c_.value.func.id == "setattr" \
+                                and len(c_.value.args) == 3 and isinstance(c_.value.args[1], ast.Name) and c_.value.args[1].id == var:
+                            c_ = ast.copy_location(ast.Assign(targets=[ast.Attribute(value=c_.value.args[0], attr=name, ctx=ast.Store())],
+                                                              value=c_.value.args[2], lineno=b_.lineno), b_)
+                        ast.fix_missing_locations(c_)
+                        new.append(c_)
+                idx = block.index(st)
+                block[idx:idx + 1] = new
+                k = idx + len(new)
+                done += 1
+    return done
+
+
 def unmove_static_aliases(tree):
     """`def _f(..): ...` at module level plus `name = staticmethod(_f)` in a class body (a method moved out of its class, the old name
     kept as an alias) is turned back into a static method `name` of that class; direct calls `_f(...)` become `Class.name(...)`."""
@@ -623,6 +693,7 @@ class ModuleInfo:
         except SyntaxError as e:
             raise AnalysisError("syntax error in %s: %s" % (path, e))
         unmove_static_aliases(self.tree)
+        unroll_reflective_loops(self.tree)
         inline_local_functions(self.tree)
         unfold_any_over_local_function(self.tree)
         uncache_attribute_locals(self.tree)
